@@ -157,6 +157,7 @@ func buildSpend(sp *spendSpec) *spendBuilt {
 
 var (
 	spendBases  []*spendBuilt
+	spendSpecs  []*spendSpec
 	uinFeePayer *spendBuilt
 	spendOnce   sync.Once
 )
@@ -186,7 +187,8 @@ func initSpends() {
 		j1, j2 := fundF1[6], fundF1[7] // (W2,0) 7e18 global 6, (W2,1) 8e18 global 7
 		s4 := &spendSpec{name: "S4:2in(ring3)->2Uout", w: 2, ins: []*fixOut{j1, j2}, rings: [][]uint64{{5, 6, 8}, {6, 7, 8}},
 			outs: []outSpec{{to: pd(0, 2), amount: e18(9)}, {to: pd(2, 1), amount: sub(sub(add(j1.amount, j2.amount), e18(9)), utxoFee)}}, extra: []byte("s4")}
-		for _, s := range []*spendSpec{s1, s2, s3, s4} {
+		spendSpecs = []*spendSpec{s1, s2, s3, s4}
+		for _, s := range spendSpecs {
 			b := buildSpend(s)
 			spendBases = append(spendBases, b)
 			if s.feePayer {
@@ -692,6 +694,7 @@ func runConfidentialSide(r *vk.Run) int {
 	initSpends()
 	n := runRecognition(r)
 	n += runSpendKeySets(r)
+	n += runAuthShape(r)
 	n += runBinding(r)
 	r.Set("confidential_cases", n)
 	return n
